@@ -150,6 +150,7 @@ func c04Run(t *testing.T, sub, keyName string, maxK int, nonrev bool, qb, tb tim
 					judge := func(path string, p *ProofD, tsA *big.Int, ts []*big.Int, ok bool) {
 						r.Eval()
 						r.Nontrivial(fmt.Sprintf("%s|%d|%d|%v|%v|%s", keyName, kk, rot, D, issig, path))
+						r.Outcome(fmt.Sprintf("%s:attributes=%d:disclosed=%d:issig=%v:verified=%v", path, kk, len(D), issig, ok))
 						if !ok {
 							r.Violate("C04|honest-proof-rejected|"+path, fmt.Sprintf("proof for %v does not verify", caseID), caseID)
 						}
@@ -280,6 +281,7 @@ func c04Run(t *testing.T, sub, keyName string, maxK int, nonrev bool, qb, tb tim
 					} else {
 						r.Eval()
 						ok2 := vsCloneProof(p2).(*ProofD).Verify(pk, vfContext, vfNonce, false)
+						r.Outcome(fmt.Sprintf("second-session:disclosed=%d:verified=%v", len(D2), ok2))
 						good := ok2
 						for _, i := range D2 {
 							if p2.ADisclosed[i] == nil || p2.ADisclosed[i].Cmp(vals[i-1]) != 0 {
